@@ -222,6 +222,23 @@ def crash_obligations(prop, shape_name, replayer, what):
     return handler
 
 
+def replay_build_crash(desc):
+    """generic replayer for shapes without symbolic parameters whose builder only uses the public API and the real
+    solver's initialize(): the builder is run again in the unpatched replay interpreter"""
+    shape = get_shape(desc["module"], desc["shape"])
+    from symx import engine
+    try:
+        with quiet():
+            shape.build(engine.Params("conc", values=(desc.get("witness") or {}).get("params") or {}))
+    except Exception as e:
+        if raised_by_library(e):
+            print(f"CONFIRMED: the library raised {type(e).__name__}: {str(e)[:200]} on a well-formed problem")
+            return 1
+        raise
+    print("replay: the problem was built and initialised without error")
+    return 0
+
+
 def confirm_library_failure(replayer):
     """Decorator for the replay functions of concrete-layer obligations: if the library raises again on the
     same valid use, the violation is confirmed."""
